@@ -21,6 +21,12 @@ SINK_PAYLOADS = [
     ('payload:big-method', 'function f(a) -> begin ' + '; '.join('print("~\\n", a + %d)' % i for i in range(120)) + ' end; f(1)'),
     ('payload:utf8', 'print("é世😀\n' + 'é' * 700 + '\n' + '世' * 500 + '")'),
     ('payload:600-globals', '; '.join('let g%d = %d' % (i, i) for i in range(600)) + '; print("~\\n", g10)'),                                   # 0x0A inside the globals table (index 10)
+    # 0x0A inside LENGTH and COUNT fields: a string of 2570 = 0x0A0A bytes without any line break, one of 1290 = 0x050A, a method of 2570 instructions, 10 parameters / locals / members
+    ('payload:string-length-0x0A0A', 'print("' + 'x' * 2570 + '"); print("tail")'),
+    ('payload:string-length-0x050A-and-0x0A00', 'print("' + 'y' * 1290 + '"); print("' + 'z' * 2560 + '"); print("tail")'),
+    ('payload:method-of-2570-instructions', 'function f(a) -> begin ' + '; '.join('a' for _ in range(1284)) + '; a end; print("pad pad pad pad pad pad pad pad pad pad pad pad pad pad pad pad pad pad"); f(1)'),
+    ('payload:ten-of-everything', 'function f(a, b, c, d, e, g, h, i, j, k) -> begin let l0 = 0; let l1 = 1; let l2 = 2; let l3 = 3; let l4 = 4; let l5 = 5; let l6 = 6; let l7 = 7; let l8 = 8; let l9 = 9; a + l9 end; '
+     'let o = object begin let m0 = 0; let m1 = 1; let m2 = 2; let m3 = 3; let m4 = 4; let m5 = 5; let m6 = 6; let m7 = 7; let m8 = 8; let m9 = 9 end; print("' + 'p' * 1500 + ' ~ ~", f(1, 2, 3, 4, 5, 6, 7, 8, 9, 10), o.m9)'),
     ('payload:class-300-members', 'let o = object begin ' + '; '.join('let f%d = %d' % (i, i) for i in range(300)) + ' end; print("~\\n", o.f10)'),
 ]
 
@@ -121,7 +127,7 @@ def c08(tier):
     log('[c08] TraceSink done %.0fs' % (time.time() - chk.t0))
     # the real stdout: redirect and pipe versus -o
     obs = []
-    for i, p in enumerate(progs[:tier_sizes(tier, 14, 120)]):
+    for i, p in enumerate(progs[:tier_sizes(tier, 18, 120)]):
         if 'bytes' not in outs[i]:
             continue
         src = os.path.join(wd, 'r%d.fml' % i)
